@@ -267,7 +267,7 @@ func (r *SortReg) rangeFact(term string, t types.Type, depth int) string {
 		return "(and " + strings.Join(parts, " ") + ")"
 	case *types.Slice:
 		s := r.sortOf(t)
-		base := fmt.Sprintf("(and (>= (len_%s %s) 0) (<= (len_%s %s) 9223372036854775807))", s, term, s, term)
+		base := fmt.Sprintf("(and (>= (len_%s %s) 0) (<= (len_%s %s) 72057594037927936))", s, term, s, term)
 		if _, isStruct := u.Elem().Underlying().(*types.Struct); isStruct && depth == 0 {
 			if ef := r.rangeFact(fmt.Sprintf("(select (arr_%s %s) k_rf)", s, term), u.Elem(), 1); ef != "" {
 				return fmt.Sprintf("(and %s (forall ((k_rf Int)) (! %s :pattern ((select (arr_%s %s) k_rf)))))", base, ef, s, term)
